@@ -101,6 +101,42 @@ func dispatchPart(c *rig.Ctx) {
 		c.Exact(1)
 	})
 
+	// A request bit stored to IF (or raised by the hardware) reads back until it is cleared by a
+	// store or by a dispatch: with the LCD on, every combination of STAT sources selected and no
+	// CPU running, IF is read after every machine cycle over more than a frame - no bit may drop.
+	c.Part("if-sticky", 16*4, func(i int64, r *rig.Rng) {
+		m := rig.MustNew(rig.BlankROM(0, 0, 0), rig.Opts{})
+		for k := 0; k < r.Intn(300); k++ {
+			m.PPU.EndMachineCycle()
+		}
+		src := uint8(i%16) << 3
+		m.Mem.Write(0xff41, src)
+		m.Mem.Write(0xff45, r.Pick8([]uint8{0, 1, uint8(r.Intn(154)), 143, 144, 153}))
+		m.Mem.Write(0xff07, 0x04|uint8(r.Intn(4)))
+		v := r.U8() & 0x1f
+		m.Mem.Write(0xff0f, v)
+		prev := m.Mem.Read(0xff0f)
+		if prev != 0xe0|v {
+			c.Violate("readback-if", fmt.Sprintf("IF written %02X reads %02X", v, prev), nil)
+			return
+		}
+		for k := 0; k < 19000; k++ {
+			m.PPU.EndMachineCycle()
+			m.Mem.EndMachineCycle()
+			if m.Timer.EndMachineCycle() {
+				m.IRQ.RequestTimer()
+			}
+			now := m.Mem.Read(0xff0f)
+			if now&prev != prev {
+				c.Violate("if-bit-drops-without-store-or-dispatch", fmt.Sprintf("STAT sources %02X, IF written %02X: %d cycles later (LCD on, no CPU activity at all) IF reads %02X, one cycle earlier %02X", src, v, k+1, now, prev), nil)
+				return
+			}
+			prev = now
+		}
+		c.Count("if_sticky_cycles", 19000)
+		c.Exact(1)
+	})
+
 	// OAM is plain memory with the LCD off as soon as a transfer is over: a store in each of
 	// the cycles around the end of a transfer either is blocked together with the reads (the
 	// byte then reads FF or its copied value) or sticks
